@@ -1,1 +1,776 @@
-//! C05: not implemented yet.
+//! C05 — offset and delay follow the NTP on-wire formulas.
+//!
+//! Engine E-IN against a 128-bit integer reference.
+//!
+//! (w) every quadruple (T1,T2,T3,T4) in B^4 over a boundary-value set B of 64-bit NTP
+//!     timestamps (era edges, sign edges, +-1 unit, realistic 1970 / 2026 values, odd and
+//!     even differences), fed as the outgoing (T1,T2) and incoming (T3,T4) `Measurement`
+//!     to the real `TwoWaySourceControllerWrapper`, obtained through the public
+//!     `TimeSyncControllerWrapper::<Stub>::new(..).add_source(..)` around a recording
+//!     `InternalSourceController`;
+//! (o) every pair (remote, local) in B^2 through the real `OneWaySourceControllerWrapper`;
+//! (p) every quadruple over a sub-alphabet through a real `NtpSource` round trip:
+//!     `handle_timer` -> the emitted request is answered with a hand-built 48-byte server
+//!     datagram carrying T2/T3 -> `handle_incoming(.., T1, T4)`, which covers
+//!     `measurements_from_packet`.
+//!
+//! Oracle (statement, i128): a = wrap64(T2-T1), b = wrap64(T3-T4) as signed 64-bit values
+//! (the representable reading of the true differences across an era boundary);
+//! offset must be (a+b)/2 up to the rounding of the halving (|2*offset - (a+b)| <= 1) —
+//! the mean of two i64 always fits, so this is demanded for *every* quadruple;
+//! c = wrap64(T4-T1), d = wrap64(T3-T2); delay must be c-d when that fits in i64,
+//! otherwise only saturation in the right direction is demanded. localtime = T4.
+//! One way: offset = wrap64(remote - local), localtime = local.
+use std::sync::{Arc, Mutex, RwLock};
+
+use super::common::{self, Ctx};
+use crate::{
+    ClockId,
+    algorithm::{
+        InternalMeasurement, InternalSourceController, InternalStateUpdate,
+        InternalTimeSyncController, Measurement, ObservableSourceTimedata, SourceController,
+        TimeSyncController, TimeSyncControllerWrapper,
+    },
+    clock::NtpClock,
+    config::{SourceConfig, SynchronizationConfig},
+    packet::NtpLeapIndicator,
+    source::{NtpSource, NtpSourceAction, ProtocolVersion},
+    time_types::{NtpDuration, NtpTimestamp, PollInterval},
+};
+
+// ---------------------------------------------------------------------------------
+// recording stub controller
+// ---------------------------------------------------------------------------------
+
+#[derive(Clone, Copy, Debug, PartialEq)]
+struct Rec {
+    delay: Option<i64>,
+    offset: i64,
+    localtime: u64,
+    root_delay: i64,
+    root_dispersion: i64,
+    leap: NtpLeapIndicator,
+    precision: i8,
+}
+
+type Log = Arc<Mutex<Vec<Rec>>>;
+
+fn raw(d: NtpDuration) -> i64 {
+    i64::from_be_bytes((NtpTimestamp::default() + d).to_bits())
+}
+fn raw_ts(t: NtpTimestamp) -> u64 {
+    u64::from_be_bytes(t.to_bits())
+}
+fn ts(x: u64) -> NtpTimestamp {
+    NtpTimestamp::from_fixed_int(x)
+}
+
+#[derive(Clone)]
+struct LogClock {
+    log: Log,
+}
+
+impl NtpClock for LogClock {
+    type Error = std::io::Error;
+    fn now(&self) -> Result<NtpTimestamp, Self::Error> {
+        Ok(NtpTimestamp::default())
+    }
+    fn set_frequency(&self, _f: f64) -> Result<NtpTimestamp, Self::Error> {
+        Ok(NtpTimestamp::default())
+    }
+    fn get_frequency(&self) -> Result<f64, Self::Error> {
+        Ok(0.0)
+    }
+    fn step_clock(&self, _o: NtpDuration) -> Result<NtpTimestamp, Self::Error> {
+        Ok(NtpTimestamp::default())
+    }
+    fn disable_ntp_algorithm(&self) -> Result<(), Self::Error> {
+        Ok(())
+    }
+    fn error_estimate_update(&self, _e: NtpDuration, _m: NtpDuration) -> Result<(), Self::Error> {
+        Ok(())
+    }
+    fn status_update(&self, _l: NtpLeapIndicator) -> Result<(), Self::Error> {
+        Ok(())
+    }
+}
+
+struct RecTwoWay {
+    log: Log,
+}
+struct RecOneWay {
+    log: Log,
+}
+
+impl InternalSourceController for RecTwoWay {
+    type ControllerMessage = ();
+    type SourceMessage = ();
+    type MeasurementDelay = NtpDuration;
+    fn handle_message(&mut self, _m: ()) {}
+    fn handle_measurement(&mut self, m: InternalMeasurement<NtpDuration>) -> Option<()> {
+        self.log.lock().unwrap().push(Rec {
+            delay: Some(raw(m.delay)),
+            offset: raw(m.offset),
+            localtime: raw_ts(m.localtime),
+            root_delay: raw(m.root_delay),
+            root_dispersion: raw(m.root_dispersion),
+            leap: m.leap,
+            precision: m.precision,
+        });
+        None
+    }
+    fn desired_poll_interval(&self) -> PollInterval {
+        PollInterval::default()
+    }
+    fn observe(&self) -> ObservableSourceTimedata {
+        ObservableSourceTimedata::default()
+    }
+}
+
+impl InternalSourceController for RecOneWay {
+    type ControllerMessage = ();
+    type SourceMessage = ();
+    type MeasurementDelay = ();
+    fn handle_message(&mut self, _m: ()) {}
+    fn handle_measurement(&mut self, m: InternalMeasurement<()>) -> Option<()> {
+        self.log.lock().unwrap().push(Rec {
+            delay: None,
+            offset: raw(m.offset),
+            localtime: raw_ts(m.localtime),
+            root_delay: raw(m.root_delay),
+            root_dispersion: raw(m.root_dispersion),
+            leap: m.leap,
+            precision: m.precision,
+        });
+        None
+    }
+    fn desired_poll_interval(&self) -> PollInterval {
+        PollInterval::default()
+    }
+    fn observe(&self) -> ObservableSourceTimedata {
+        ObservableSourceTimedata::default()
+    }
+}
+
+struct Stub {
+    log: Log,
+}
+
+impl InternalTimeSyncController for Stub {
+    type Clock = LogClock;
+    type AlgorithmConfig = ();
+    type ControllerMessage = ();
+    type SourceMessage = ();
+    type NtpSourceController = RecTwoWay;
+    type OneWaySourceController = RecOneWay;
+
+    fn new(clock: LogClock, _s: SynchronizationConfig, _a: ()) -> Result<Self, std::io::Error> {
+        Ok(Stub { log: clock.log.clone() })
+    }
+    fn take_control(&mut self) -> Result<(), std::io::Error> {
+        Ok(())
+    }
+    fn add_source(&mut self, _id: ClockId, _c: SourceConfig) -> RecTwoWay {
+        RecTwoWay { log: self.log.clone() }
+    }
+    fn add_one_way_source(&mut self, _id: ClockId, _c: SourceConfig, _n: f64, _a: f64, _p: Option<f64>) -> RecOneWay {
+        RecOneWay { log: self.log.clone() }
+    }
+    fn remove_source(&mut self, _id: ClockId) {}
+    fn source_update(&mut self, _id: ClockId, _usable: bool) {}
+    fn source_message(&mut self, _id: ClockId, _m: ()) -> InternalStateUpdate<()> {
+        InternalStateUpdate::default()
+    }
+    fn time_update(&mut self) -> InternalStateUpdate<()> {
+        InternalStateUpdate::default()
+    }
+}
+
+type Wrapper = TimeSyncControllerWrapper<Stub>;
+type TwoWay = <Wrapper as TimeSyncController>::NtpSourceController;
+type OneWay = <Wrapper as TimeSyncController>::OneWaySourceController;
+
+const SRC: ClockId = ClockId(7);
+
+struct Rig {
+    log: Log,
+    _wrapper: Wrapper,
+    two: TwoWay,
+    one: OneWay,
+}
+
+fn rig() -> Rig {
+    let log: Log = Arc::new(Mutex::new(Vec::new()));
+    let wrapper = Wrapper::new(LogClock { log: log.clone() }, SynchronizationConfig::default(), ()).expect("wrapper");
+    let two = wrapper.add_source(SRC, SourceConfig::default());
+    let one = wrapper.add_one_way_source(ClockId(8), SourceConfig::default(), 0.0, 0.0, None);
+    Rig { log, _wrapper: wrapper, two, one }
+}
+
+fn meas(sender: ClockId, receiver: ClockId, s: u64, r: u64) -> Measurement {
+    Measurement {
+        sender_id: sender,
+        receiver_id: receiver,
+        sender_ts: ts(s),
+        receiver_ts: ts(r),
+        root_delay: NtpDuration::from_fixed_int(0x1234),
+        root_dispersion: NtpDuration::from_fixed_int(0x5678),
+        leap: NtpLeapIndicator::NoWarning,
+        precision: -20,
+    }
+}
+
+// ---------------------------------------------------------------------------------
+// reference
+// ---------------------------------------------------------------------------------
+
+fn wrap(x: u64, y: u64) -> i128 {
+    (x.wrapping_sub(y) as i64) as i128
+}
+
+struct Want {
+    sum: i128,   // a + b
+    delay: i128, // c - d
+}
+
+fn want(t: [u64; 4]) -> Want {
+    let a = wrap(t[1], t[0]);
+    let b = wrap(t[2], t[3]);
+    let c = wrap(t[3], t[0]);
+    let d = wrap(t[2], t[1]);
+    Want { sum: a + b, delay: c - d }
+}
+
+fn fits(x: i128) -> bool {
+    x >= i64::MIN as i128 && x <= i64::MAX as i128
+}
+
+fn judge_two_way(t: [u64; 4], got: &[Rec]) -> Vec<(&'static str, String)> {
+    let mut out = Vec::new();
+    let w = want(t);
+    if got.len() != 1 {
+        out.push(("C05:exchange-not-delivered", format!("{} measurements delivered for one exchange", got.len())));
+        return out;
+    }
+    let r = got[0];
+    let g2 = 2 * r.offset as i128;
+    if (g2 - w.sum).abs() > 1 {
+        let class = if fits(w.sum) { "C05:offset-formula" } else { "C05:offset-sum-saturates" };
+        out.push((
+            class,
+            format!(
+                "offset {} (~{:.3} s) but ((T2-T1)+(T3-T4))/2 = {}/2 = {} (~{:.3} s) [units of 2^-32 s; the half sum always fits i64, the sum {}]",
+                r.offset,
+                r.offset as f64 / 4294967296.0,
+                w.sum,
+                w.sum / 2,
+                (w.sum / 2) as f64 / 4294967296.0,
+                if fits(w.sum) { "fits too" } else { "does not and is saturated first" }
+            ),
+        ));
+    }
+    match r.delay {
+        None => out.push(("C05:delay-formula", "no delay delivered".to_string())),
+        Some(d) => {
+            if fits(w.delay) {
+                if d as i128 != w.delay {
+                    out.push(("C05:delay-formula", format!("delay {d} but (T4-T1)-(T3-T2) = {}", w.delay)));
+                }
+            } else if (w.delay > 0 && d != i64::MAX) || (w.delay < 0 && d != i64::MIN) {
+                out.push(("C05:delay-saturation", format!("delay {d} but (T4-T1)-(T3-T2) = {} does not fit and must saturate towards its sign", w.delay)));
+            }
+        }
+    }
+    if r.localtime != t[3] {
+        out.push(("C05:localtime", format!("localtime {:#x}, expected T4 {:#x}", r.localtime, t[3])));
+    }
+    out
+}
+
+fn judge_one_way(remote: u64, local: u64, got: &[Rec]) -> Vec<(&'static str, String)> {
+    let mut out = Vec::new();
+    if got.len() != 1 {
+        out.push(("C05:exchange-not-delivered", format!("{} measurements delivered for one sample", got.len())));
+        return out;
+    }
+    let r = got[0];
+    if r.offset as i128 != wrap(remote, local) {
+        out.push(("C05:one-way-offset", format!("offset {} but remote-local = {}", r.offset, wrap(remote, local))));
+    }
+    if r.localtime != local {
+        out.push(("C05:localtime", format!("localtime {:#x}, expected local receive time {:#x}", r.localtime, local)));
+    }
+    out
+}
+
+// ---------------------------------------------------------------------------------
+// alphabets
+// ---------------------------------------------------------------------------------
+
+const EPOCH_1970: u64 = 2_208_988_800u64 << 32;
+const NOW_2026: u64 = (3_999_000_000u64 << 32) | 0x8000_0001;
+
+fn alphabet(quick: bool) -> Vec<u64> {
+    let mut b = vec![
+        0,
+        1,
+        2,
+        1 << 32,
+        1 << 62,
+        (1 << 63) - 1,
+        1 << 63,
+        (1 << 63) + 1,
+        u64::MAX - 1,
+        u64::MAX,
+        u64::MAX - (1 << 32) + 1, // one second before the era boundary
+        EPOCH_1970,
+        NOW_2026,
+        NOW_2026 + 4_294_967,       // + 1 ms
+        NOW_2026 + (3 << 32) + 5,   // + 3 s, odd distance
+        0x5555_5555_5555_5555,
+    ];
+    b.extend_from_slice(&[
+        3,
+        (1 << 32) - 1,
+        (1 << 32) + 1,
+        (1 << 63) - (1 << 32),
+        (1 << 63) + (1 << 32),
+        0xAAAA_AAAA_AAAA_AAAA,
+        NOW_2026 - 1,
+        (1 << 62) + 1,
+    ]);
+    if !quick {
+        b.extend_from_slice(&[
+            4,
+            5,
+            1 << 31,
+            (1 << 32) | 1,
+            1 << 61,
+            3 << 62,
+            (1 << 63) - 2,
+            (1 << 63) + 2,
+            u64::MAX - (1 << 32), // one second and one unit before the era boundary
+            EPOCH_1970 + 1,
+            NOW_2026 + (1 << 32),
+            NOW_2026 - (1 << 32),
+            NOW_2026 - (1_262_304_000u64 << 32), // 40 years earlier
+            NOW_2026 - (946_728_000u64 << 32),   // 30 years earlier
+            0x3333_3333_3333_3333,
+            0xCCCC_CCCC_CCCC_CCCC,
+        ]);
+    }
+    b
+}
+
+/// sub-alphabet for the real-source round trip
+fn packet_alphabet(quick: bool) -> Vec<u64> {
+    let mut b = vec![
+        0,
+        1,
+        (1 << 63) - 1,
+        1 << 63,
+        u64::MAX,
+        EPOCH_1970,
+        NOW_2026,
+        NOW_2026 + (3 << 32) + 5,
+    ];
+    b.extend_from_slice(&[2, 1 << 32, u64::MAX - (1 << 32) + 1, NOW_2026 + 4_294_967]);
+    if !quick {
+        b.extend_from_slice(&[(1 << 63) + 1, 1 << 62, NOW_2026 - 1, 0x5555_5555_5555_5555]);
+    }
+    b
+}
+
+fn quad_trace(kind: &str, t: [u64; 4]) -> String {
+    format!("{kind};{:016x},{:016x},{:016x},{:016x}", t[0], t[1], t[2], t[3])
+}
+
+// ---------------------------------------------------------------------------------
+// drivers
+// ---------------------------------------------------------------------------------
+
+fn two_way_once(r: &mut Rig, t: [u64; 4]) -> Vec<Rec> {
+    r.log.lock().unwrap().clear();
+    r.two.handle_measurement(meas(ClockId::SYSTEM, SRC, t[0], t[1]));
+    r.two.handle_measurement(meas(SRC, ClockId::SYSTEM, t[2], t[3]));
+    std::mem::take(&mut *r.log.lock().unwrap())
+}
+
+fn one_way_once(r: &mut Rig, remote: u64, local: u64) -> Vec<Rec> {
+    r.log.lock().unwrap().clear();
+    r.one.handle_measurement(meas(ClockId(8), ClockId::SYSTEM, remote, local));
+    std::mem::take(&mut *r.log.lock().unwrap())
+}
+
+#[derive(Default)]
+struct Stats {
+    cases: u64,
+    even: u64,
+    odd_toward_zero: u64,
+    odd_floor_negative: u64,
+    sum_overflow: u64,
+    delay_fits: u64,
+    delay_sat_pos: u64,
+    delay_sat_neg: u64,
+    era_crossing: u64,
+    negative_delay: u64,
+}
+
+impl Stats {
+    fn note(&mut self, t: [u64; 4], got: &[Rec]) {
+        self.cases += 1;
+        let w = want(t);
+        if !fits(w.sum) {
+            self.sum_overflow += 1;
+        } else if w.sum % 2 == 0 {
+            self.even += 1;
+        } else if let Some(r) = got.first() {
+            // which way does the implementation round an odd sum?
+            if w.sum > 0 || 2 * r.offset as i128 > w.sum {
+                self.odd_toward_zero += 1;
+            } else {
+                self.odd_floor_negative += 1;
+            }
+        }
+        if fits(w.delay) {
+            self.delay_fits += 1;
+            if w.delay < 0 {
+                self.negative_delay += 1;
+            }
+        } else if w.delay > 0 {
+            self.delay_sat_pos += 1;
+        } else {
+            self.delay_sat_neg += 1;
+        }
+        // the pair (T1,T2) or (T3,T4) straddles the era boundary: numerically "before" but later
+        if (t[1] < t[0] && wrap(t[1], t[0]) > 0) || (t[3] < t[2] && wrap(t[3], t[2]) > 0) {
+            self.era_crossing += 1;
+        }
+    }
+    fn flush(&self, ctx: &Ctx, p: &str) {
+        ctx.add("evaluations", self.cases);
+        ctx.add(&format!("{p}_quadruples"), self.cases);
+        ctx.add(&format!("{p}_offset_sum_even_exact"), self.even);
+        ctx.add(&format!("{p}_offset_sum_odd_rounded_toward_zero"), self.odd_toward_zero);
+        ctx.add(&format!("{p}_offset_sum_odd_rounded_down"), self.odd_floor_negative);
+        ctx.add(&format!("{p}_offset_sum_exceeds_i64"), self.sum_overflow);
+        ctx.add(&format!("{p}_delay_fits"), self.delay_fits);
+        ctx.add(&format!("{p}_delay_negative"), self.negative_delay);
+        ctx.add(&format!("{p}_delay_saturates_positive"), self.delay_sat_pos);
+        ctx.add(&format!("{p}_delay_saturates_negative"), self.delay_sat_neg);
+        ctx.add(&format!("{p}_pair_straddles_era_boundary"), self.era_crossing);
+    }
+}
+
+/// Named, realistic exchanges run first (so that a reported trace is a meaningful one).
+/// They are a subset of / additions to the product below, not a replacement.
+fn named_quadruples() -> Vec<(&'static str, [u64; 4])> {
+    let ms = 4_294_967u64;
+    vec![
+        ("in sync, 20 ms round trip", [NOW_2026, NOW_2026 + 10 * ms, NOW_2026 + 11 * ms, NOW_2026 + 20 * ms]),
+        ("client clock at the Unix epoch (no RTC), server in 2026", [EPOCH_1970, NOW_2026, NOW_2026 + ms, EPOCH_1970 + 20 * ms]),
+        ("client in 2026, server at the Unix epoch", [NOW_2026, EPOCH_1970, EPOCH_1970 + ms, NOW_2026 + 20 * ms]),
+        ("client 40 years behind", [NOW_2026 - (1_262_304_000u64 << 32), NOW_2026, NOW_2026 + ms, NOW_2026 - (1_262_304_000u64 << 32) + 20 * ms]),
+        ("client 30 years behind", [NOW_2026 - (946_728_000u64 << 32), NOW_2026, NOW_2026 + ms, NOW_2026 - (946_728_000u64 << 32) + 20 * ms]),
+        ("exchange across the 2036 era boundary", [u64::MAX - 5 * ms, u64::MAX - ms, 3 * ms, 9 * ms]),
+        ("client just before, server just after the era boundary", [u64::MAX - 5 * ms, 5 * ms, 6 * ms, u64::MAX - ms]),
+    ]
+}
+
+fn run_named(ctx: &Ctx) {
+    let mut r = rig();
+    let mut st = Stats::default();
+    for (name, t) in named_quadruples() {
+        match common::catch(|| two_way_once(&mut r, t)) {
+            Err(e) => {
+                ctx.violation("C05:panic", format!("wrapper panicked: {e}"), quad_trace("w", t));
+                r = rig();
+            }
+            Ok(got) => {
+                st.note(t, &got);
+                for (class, what) in judge_two_way(t, &got) {
+                    ctx.violation(class, format!("{name}: {what}"), quad_trace("w", t));
+                }
+                ctx.distinct(common::hash_of(&("w", t)));
+                ctx.sample(format!("{name}: {} -> offset {:?} delay {:?}", quad_trace("w", t), got.first().map(|r| r.offset), got.first().and_then(|r| r.delay)));
+            }
+        }
+    }
+    ctx.add("impl_calls", 2 * st.cases);
+    st.flush(ctx, "named");
+}
+
+fn run_two_way(ctx: &Ctx, b: &[u64]) {
+    let k = b.len();
+    let total = common::pow(k, 4);
+    const CH: u64 = 4096;
+    common::par_for(total.div_ceil(CH), 1, |c| {
+        let mut r = rig();
+        let mut st = Stats::default();
+        let mut distinct = Vec::new();
+        for x in c * CH..((c + 1) * CH).min(total) {
+            let w = common::word_of(x, k, 4);
+            let t = [b[w[0]], b[w[1]], b[w[2]], b[w[3]]];
+            match common::catch(|| two_way_once(&mut r, t)) {
+                Err(e) => {
+                    ctx.violation("C05:panic", format!("wrapper panicked: {e}"), quad_trace("w", t));
+                    r = rig();
+                }
+                Ok(got) => {
+                    st.note(t, &got);
+                    for (class, what) in judge_two_way(t, &got) {
+                        ctx.violation(class, what, quad_trace("w", t));
+                    }
+                    if !(t[0] == t[1] && t[1] == t[2] && t[2] == t[3]) {
+                        distinct.push(common::hash_of(&("w", t)));
+                    }
+                    if x % 60_013 == 1 {
+                        ctx.sample(format!("two-way {} -> {:?}", quad_trace("w", t), got.first().map(|r| (r.offset, r.delay))));
+                    }
+                }
+            }
+        }
+        ctx.add("impl_calls", 2 * st.cases);
+        st.flush(ctx, "wrapper");
+        ctx.distinct_many(distinct);
+    });
+}
+
+fn run_one_way(ctx: &Ctx, b: &[u64]) {
+    let mut r = rig();
+    let mut n = 0u64;
+    let mut negative = 0u64;
+    for &remote in b {
+        for &local in b {
+            match common::catch(|| one_way_once(&mut r, remote, local)) {
+                Err(e) => {
+                    ctx.violation("C05:panic", format!("one-way wrapper panicked: {e}"), format!("o;{remote:016x},{local:016x}"));
+                    r = rig();
+                }
+                Ok(got) => {
+                    n += 1;
+                    if wrap(remote, local) < 0 {
+                        negative += 1;
+                    }
+                    for (class, what) in judge_one_way(remote, local, &got) {
+                        ctx.violation(class, what, format!("o;{remote:016x},{local:016x}"));
+                    }
+                    if remote != local {
+                        ctx.distinct(common::hash_of(&("o", remote, local)));
+                    }
+                }
+            }
+        }
+    }
+    ctx.add("evaluations", n);
+    ctx.add("impl_calls", n);
+    ctx.add("oneway_pairs", n);
+    ctx.add("oneway_negative_offsets", negative);
+}
+
+/// A real `NtpSource` (plain NTPv4) on top of the real two-way wrapper.
+struct PacketRig {
+    log: Log,
+    _wrapper: Wrapper,
+    source: NtpSource<TwoWay>,
+}
+
+fn packet_rig() -> PacketRig {
+    let log: Log = Arc::new(Mutex::new(Vec::new()));
+    let wrapper = Wrapper::new(LogClock { log: log.clone() }, SynchronizationConfig::default(), ()).expect("wrapper");
+    let two = wrapper.add_source(SRC, SourceConfig::default());
+    let (source, _actions) = NtpSource::new(
+        "192.0.2.7:123".parse().unwrap(),
+        SourceConfig::default(),
+        ProtocolVersion::V4,
+        two,
+        None,
+        SRC,
+        Arc::new(RwLock::new(Default::default())),
+        Arc::new(Mutex::new(Default::default())),
+    );
+    PacketRig { log, _wrapper: wrapper, source }
+}
+
+const ROOT_DELAY_SHORT: [u8; 4] = [0, 1, 0x80, 0];
+const ROOT_DISP_SHORT: [u8; 4] = [0, 0, 0x40, 0];
+
+fn packet_once(r: &mut PacketRig, t: [u64; 4]) -> Result<Vec<Rec>, String> {
+    r.log.lock().unwrap().clear();
+    let mut request = None;
+    for a in r.source.handle_timer() {
+        match a {
+            NtpSourceAction::Send(buf) => request = Some(buf),
+            NtpSourceAction::SetTimer(_) => {}
+            other => return Err(format!("harness: unexpected action {other:?}")),
+        }
+    }
+    let request = request.ok_or("harness: no poll sent")?;
+    if request.len() < 48 {
+        return Err("harness: short request".into());
+    }
+    // server answer, byte level: LI=0 VN=4 mode=4, stratum 2, echo poll, precision -20
+    let mut resp = [0u8; 48];
+    resp[0] = (4 << 3) | 4;
+    resp[1] = 2;
+    resp[2] = request[2];
+    resp[3] = (-20i8) as u8;
+    resp[4..8].copy_from_slice(&ROOT_DELAY_SHORT);
+    resp[8..12].copy_from_slice(&ROOT_DISP_SHORT);
+    resp[12..16].copy_from_slice(&[10, 0, 0, 1]);
+    resp[16..24].copy_from_slice(&NOW_2026.to_be_bytes());
+    resp[24..32].copy_from_slice(&request[40..48]); // origin = request transmit timestamp
+    resp[32..40].copy_from_slice(&t[1].to_be_bytes()); // receive timestamp T2
+    resp[40..48].copy_from_slice(&t[2].to_be_bytes()); // transmit timestamp T3
+    for a in r.source.handle_incoming(&resp, ts(t[0]), ts(t[3])) {
+        return Err(format!("harness: unexpected action on answer {a:?}"));
+    }
+    Ok(std::mem::take(&mut *r.log.lock().unwrap()))
+}
+
+fn judge_packet(t: [u64; 4], got: &[Rec]) -> Vec<(&'static str, String)> {
+    let mut out = judge_two_way(t, got);
+    if let Some(r) = got.first() {
+        let rd = (u32::from_be_bytes(ROOT_DELAY_SHORT) as i64) << 16;
+        let rp = (u32::from_be_bytes(ROOT_DISP_SHORT) as i64) << 16;
+        if r.root_delay != rd || r.root_dispersion != rp || r.leap != NtpLeapIndicator::NoWarning || r.precision != -20 {
+            out.push(("C05:packet-fields", format!("root delay/dispersion/leap/precision not taken from the answer: {r:?}")));
+        }
+    }
+    out
+}
+
+fn run_packet(ctx: &Ctx, b: &[u64]) {
+    let k = b.len();
+    let total = common::pow(k, 4);
+    const CH: u64 = 512;
+    common::par_for(total.div_ceil(CH), 1, |c| {
+        super::block_on_paused(async {
+            let mut r = packet_rig();
+            let mut st = Stats::default();
+            let mut distinct = Vec::new();
+            for x in c * CH..((c + 1) * CH).min(total) {
+                let w = common::word_of(x, k, 4);
+                let t = [b[w[0]], b[w[1]], b[w[2]], b[w[3]]];
+                match common::catch(|| packet_once(&mut r, t)) {
+                    Err(e) => {
+                        ctx.violation("C05:panic", format!("source panicked: {e}"), quad_trace("p", t));
+                        r = packet_rig();
+                    }
+                    Ok(Err(e)) => {
+                        // machinery problem, never a verdict
+                        panic!("{e} at {}", quad_trace("p", t));
+                    }
+                    Ok(Ok(got)) => {
+                        st.note(t, &got);
+                        for (class, what) in judge_packet(t, &got) {
+                            ctx.violation(class, what, quad_trace("p", t));
+                        }
+                        if !(t[0] == t[1] && t[1] == t[2] && t[2] == t[3]) {
+                            distinct.push(common::hash_of(&("p", t)));
+                        }
+                        if x % 1_009 == 3 {
+                            ctx.sample(format!("source round trip {} -> {:?}", quad_trace("p", t), got.first().map(|r| (r.offset, r.delay))));
+                        }
+                    }
+                }
+            }
+            ctx.add("impl_calls", 2 * st.cases);
+            st.flush(ctx, "source");
+            ctx.distinct_many(distinct);
+        });
+    });
+}
+
+// ---------------------------------------------------------------------------------
+
+fn replay(ctx: &Ctx, trace: &str) -> String {
+    let (kind, rest) = trace.split_once(';').unwrap_or(("", ""));
+    let vals: Vec<u64> = rest.split(',').filter_map(|s| u64::from_str_radix(s.trim(), 16).ok()).collect();
+    match (kind, vals.len()) {
+        ("w", 4) => {
+            let t = [vals[0], vals[1], vals[2], vals[3]];
+            let mut r = rig();
+            match common::catch(|| two_way_once(&mut r, t)) {
+                Err(e) => {
+                    ctx.violation("C05:panic", e.clone(), trace);
+                    format!("panic {e}")
+                }
+                Ok(got) => {
+                    let v = judge_two_way(t, &got);
+                    for (c, w) in &v {
+                        ctx.violation(c, w.clone(), trace);
+                    }
+                    format!("{got:?} violations={:?}", v.iter().map(|x| x.0).collect::<Vec<_>>())
+                }
+            }
+        }
+        ("p", 4) => {
+            let t = [vals[0], vals[1], vals[2], vals[3]];
+            super::block_on_paused(async {
+                let mut r = packet_rig();
+                match common::catch(|| packet_once(&mut r, t)) {
+                    Err(e) => {
+                        ctx.violation("C05:panic", e.clone(), trace);
+                        format!("panic {e}")
+                    }
+                    Ok(Err(e)) => e,
+                    Ok(Ok(got)) => {
+                        let v = judge_packet(t, &got);
+                        for (c, w) in &v {
+                            ctx.violation(c, w.clone(), trace);
+                        }
+                        format!("{got:?} violations={:?}", v.iter().map(|x| x.0).collect::<Vec<_>>())
+                    }
+                }
+            })
+        }
+        ("o", 2) => {
+            let mut r = rig();
+            match common::catch(|| one_way_once(&mut r, vals[0], vals[1])) {
+                Err(e) => {
+                    ctx.violation("C05:panic", e.clone(), trace);
+                    format!("panic {e}")
+                }
+                Ok(got) => {
+                    let v = judge_one_way(vals[0], vals[1], &got);
+                    for (c, w) in &v {
+                        ctx.violation(c, w.clone(), trace);
+                    }
+                    format!("{got:?} violations={:?}", v.iter().map(|x| x.0).collect::<Vec<_>>())
+                }
+            }
+        }
+        _ => "bad trace".to_string(),
+    }
+}
+
+#[test]
+fn check() {
+    let ctx = Ctx::new("C05");
+    if let Some(t) = common::replay_trace() {
+        let a = replay(&ctx, &t);
+        let b = replay(&ctx, &t);
+        common::report_replay("C05", &a, &b, ctx.violation_count() > 0);
+        return;
+    }
+    let b = alphabet(ctx.quick());
+    let pb = packet_alphabet(ctx.quick());
+    ctx.rule(&format!(
+        "(n) 7 named realistic exchanges; (w) every (T1,T2,T3,T4) in B^4, |B|={} boundary timestamps (0,1,2,1s,2^62,2^63-1,2^63,2^63+1,2^64-2,2^64-1,era end-1s,1970,2026,+1ms,+3s odd,0x5555..; \
+         +8 more; thorough adds 16 more) through the real TwoWaySourceControllerWrapper; (o) every (remote,local) in B^2 through the real OneWaySourceControllerWrapper; \
+         (p) every quadruple over a {}-value sub-alphabet through a real NtpSource (handle_timer -> hand-built v4 answer -> handle_incoming). \
+         Non-trivial & distinct = quadruple / pair whose timestamps are not all equal.",
+        b.len(),
+        pb.len()
+    ));
+    ctx.assume("T1..T4 are taken modulo 2^64 and a difference is read as the signed 64-bit value of the wrapped subtraction (the representable interpretation across an era boundary)");
+    ctx.assume("the halving may round an odd sum either way (|2*offset - sum| <= 1)");
+    ctx.note("alphabet", &b.iter().map(|x| format!("{x:#x}")).collect::<Vec<_>>().join(" "));
+    run_named(&ctx);
+    run_two_way(&ctx, &b);
+    run_one_way(&ctx, &b);
+    run_packet(&ctx, &pb);
+    ctx.exhaustive(true);
+    ctx.finish();
+}
